@@ -701,6 +701,16 @@ func (s *Slice) checkWithGradualRecovery(node *NodeInfo, downAfterNoAlive int, s
 	masterStatus, err := s.GetMasterStatus()
 	if err != nil || masterStatus == StatusDown {
 		log.Warn("[ns:%s, %s:%s] check slave status with gradual strategy, Skipping slave sync check, master status: %s, duration: %v", s.Namespace, s.Cfg.Name, node.Address, masterStatus.String(), time.Since(start))
+		// 主库下线时只跳过主从同步检查, 探活成功的从库仍按惩罚恢复策略恢复 (与无策略/硬恢复策略一致)
+		if conn != nil && node.IsStatusDown() {
+			if strategy.AllowRecovery() {
+				strategy.UpdateLastRecoveryTime()
+				node.SetStatusUp()
+				log.Warn("[ns:%s, %s:%s] check slave status with gradual strategy, Marked as StatusUp success, (case master down), from bad recovery: %d, duration: %v", s.Namespace, s.Cfg.Name, node.Address, strategy.errorRecoveryCount.Get(), time.Since(start))
+			} else {
+				log.Warn("[ns:%s, %s:%s] check slave status with gradual strategy, still StatusDown in cooldown period, (case master down), remain skip: %d, duration: %v", s.Namespace, s.Cfg.Name, node.Address, strategy.consecutiveSuccessCheckCount.Get(), time.Since(start))
+			}
+		}
 		return
 	}
 
